@@ -222,6 +222,7 @@ func c01(c *core.Ctx, r *core.Report) {
 			return ""
 		}, "inject-table@(*component_definition.Property).Inject", injectRows)
 	}
+	smallModelCheck(c, r, "C01.R4", "inject-table", ro.PropertyInject, int64(listLen(c)))
 	// R5 immutability
 	c01Immutable(c, r)
 	// R6 registry A1/A3
